@@ -51,6 +51,7 @@ func TestCheck(t *testing.T) {
 		"offset-tampered, bit-flipped, spliced with another value's encoding, random bytes, and every valid encoding decoded under every duty type; each input goes through the real " +
 		"ParSignedDataFromProto or UnsignedDataSetFromProto and, if decoded, through verify→store→aggregate (parsigdb, sigagg, dutydb) in production order and through a real parsigex handler on fakenet. " +
 		"and, for unsigned data, through a real consensus component that is made to decide the value and stores it in a real DutyDB. " +
+		"prefix case = for every variant whose SSZ encoding starts with a value dependent byte (found by comparing encodings of several generated values), the values whose encoding starts with each JSON-like prefix ('{', white space + '{', '[', '\"', n/t/f, digit, '-', …), through all W1 oracles and the native wire context. " +
 		"sweep case = byte strings of every length 0..N (zeros / random / small header words) in one decoding context, plus ill-formed protobuf envelopes and raw frames for the parsigex handler. " +
 		"determinism case = one set built under 8 insertion orders on 8 goroutines, hashed like consensus hashes values, re-encoded by a receiver, and (half of the unsigned ones) decided by the real consensus component. non-trivial = at least one damaged input decoded without error and at least one was rejected; distinct = hash of the generated value")
 	r.Assume("a Byzantine cluster member holds a real share key, so a pure BLS mismatch (tbls.ErrSigNotVerified) is treated as passed by the verifier wrappers; every other verifier error ends the pipeline as in production")
@@ -78,14 +79,21 @@ func TestCheck(t *testing.T) {
 	nSweep := len(ctxs) * r.N(1, 4)
 	r.Require("inputs:raw-sweep", int64(nSweep)*1000)
 
-	r.Cases(nCodec+nDet+nSweep, 0, func(c *kit.Case) {
+	// W1 for values whose SSZ encoding starts like a JSON document: one case per variant
+	nPrefix := len(vars) * r.N(1, 3)
+	r.Require("prefix_values", int64(nPrefix)/2)
+	r.Require("prefix_value_dependent_variants", int64(r.N(1, 3))*3)
+
+	r.Cases(nCodec+nDet+nSweep+nPrefix, 0, func(c *kit.Case) {
 		switch {
 		case c.Idx < nCodec:
 			codecCase(c, rg, vars[c.Idx%len(vars)])
 		case c.Idx < nCodec+nDet:
 			determinismCase(c, rg)
-		default:
+		case c.Idx < nCodec+nDet+nSweep:
 			sweepCase(c, rg, ctxs[(c.Idx-nCodec-nDet)%len(ctxs)])
+		default:
+			prefixCase(c, rg, vars[(c.Idx-nCodec-nDet-nSweep)%len(vars)])
 		}
 	})
 }
@@ -106,6 +114,10 @@ type caseState struct {
 	decoded  int
 	rejected int
 	val      any
+	// for values derived from a generated one (prefixCase): how the value was made and how to build
+	// an equal value independently
+	derivedBy string
+	twin      func() (any, error)
 }
 
 func label(vr variant) string {
@@ -161,6 +173,9 @@ type encodings struct {
 
 func (cs *caseState) witness(extra map[string]any) map[string]any {
 	w := map[string]any{"variant": cs.vr.String(), "version": cs.vr.Ver.String(), "blinded": cs.vr.Blinded, "value_seed": cs.seed}
+	if cs.derivedBy != "" {
+		w["derived_by"] = cs.derivedBy
+	}
 	for k, v := range extra {
 		w[k] = v
 	}
@@ -422,8 +437,17 @@ func (cs *caseState) roundTrips(g *gen) (encodings, bool) {
 
 	// ---- purity: an equal value built independently encodes to the same bytes ----
 	try("purity", func() {
-		g2 := newGen(r.T(), rand.New(rand.NewSource(cs.seed)), cs.rg.sigPool()) //nolint:gosec // same seed on purpose
-		twin := g2.value(vr)
+		var twin any
+		if cs.twin != nil {
+			var e error
+			if twin, e = cs.twin(); e != nil {
+				fail("purity", "equal-value-cannot-be-rebuilt", e.Error(), nil)
+				return
+			}
+		} else {
+			g2 := newGen(r.T(), rand.New(rand.NewSource(cs.seed)), cs.rg.sigPool()) //nolint:gosec // same seed on purpose
+			twin = g2.value(vr)
+		}
 		j, e := toJSON(twin)
 		if e != nil || !bytes.Equal(j, enc.JSON) {
 			fail("purity", "equal-values-different-json", fmt.Sprint(e), map[string]any{"twin_json": showBytes(j)})
@@ -829,6 +853,147 @@ func (cs *caseState) canary() {
 	if !o.Decoded || len(o.Panics) > 0 || o.Stage != "aggregated" {
 		cs.c.Violation("canary/known-good-value-fails-after-recovered-panic",
 			fmt.Sprintf("after a recovered panic a known good SignedRandao stops at %s (%s)", o.Stage, o.RejectedBy), map[string]any{"panics": o.Panics})
+	}
+}
+
+// ---------------------------------------------------------------------------------------------
+// W1 for values whose SSZ encoding starts like a JSON document.
+//
+// The wire decoder (core.unmarshal) has to tell SSZ from JSON by looking at the bytes. For a type
+// whose SSZ encoding begins with a value dependent field (a slot, a validator index, …) there are
+// valid values whose encoding begins with '{', with JSON white space followed by '{', with '[', '"',
+// a digit, '-', or like null/true/false. Such values are as valid as any other and must round trip.
+
+// jsonLikePrefixes are the JSON-significant ways a byte string can begin.
+var jsonLikePrefixes = [][]byte{
+	[]byte("{"), []byte(" {"), []byte("\n{"), []byte("\t{"), []byte("\r{"), []byte("  {"), []byte(" \n\t\r{"),
+	[]byte("["), []byte("\""), []byte("n"), []byte("t"), []byte("f"), []byte("7"), []byte("0"), []byte("-"),
+	[]byte("{}"), []byte("[]"), []byte("null"), []byte("true"), []byte("false"), []byte("\"x\""), []byte("{\"a\":1}"),
+}
+
+// prefixCase finds out, by looking at encodings of several generated values, whether the SSZ encoding
+// of the variant begins with a value dependent byte. If so it makes, for every JSON-like prefix, the
+// value whose leading field has exactly these little-endian bytes: the prefix is written over the
+// first bytes of a valid encoding and the type's own SSZ decoder turns that back into a value; the
+// value counts only if it re-encodes to exactly those bytes (so it is a genuine value of the type and
+// the bytes are its canonical encoding). Each such value goes through all W1 oracles and, as a valid
+// wire message, through the native decoding context.
+func prefixCase(c *kit.Case, rg *rig, vr variant) {
+	r := c.R
+	seed := c.Rng.Int63()
+	g := newGen(r.T(), rand.New(rand.NewSource(seed)), rg.sigPool()) //nolint:gosec // reproducible workload
+	var (
+		base     any
+		baseSSZ  []byte
+		firsts   = map[byte]bool{}
+		distinct = map[string]bool{}
+	)
+	for i := 0; i < 6; i++ {
+		var (
+			v   any
+			b   []byte
+			ok  bool
+			err error
+		)
+		if pi := guard(func() { v = g.value(vr); b, ok, err = toSSZ(v) }); pi != nil {
+			r.Inconclusive("case %d: generator panicked for %v: %s at %s", c.Idx, vr, pi.Value, pi.Site)
+			return
+		}
+		if !ok || err != nil || len(b) == 0 {
+			r.Seen("prefix_variants_without_ssz", vr.K.Name)
+			return
+		}
+		if base == nil {
+			base, baseSSZ = v, b
+		}
+		firsts[b[0]] = true
+		distinct[string(b)] = true
+	}
+	r.Count("prefix_variants_inspected", 1)
+	if len(firsts) == 1 {
+		// all (different) values start with the same byte: a version, a fixed offset, …
+		if len(distinct) > 1 {
+			r.Seen("prefix_fixed_first_byte", fmt.Sprintf("%s %#02x", vr.K.Name, baseSSZ[0]))
+		}
+
+		return
+	}
+	r.Count("prefix_value_dependent_variants", 1)
+	r.Seen("prefix_value_dependent_kinds", vr.K.Name)
+
+	realised := 0
+	for _, pfx := range jsonLikePrefixes {
+		if len(pfx) > len(baseSSZ) {
+			continue
+		}
+		patched := append([]byte(nil), baseSSZ...)
+		copy(patched, pfx)
+		derive := func() (any, error) {
+			v, err := fromSSZ(patched, base)
+			if err != nil {
+				return nil, err
+			}
+			re, _, err := toSSZ(v)
+			if err != nil {
+				return nil, err
+			}
+			if !bytes.Equal(re, patched) {
+				return nil, fmt.Errorf("not the canonical encoding of a value")
+			}
+
+			return v, nil
+		}
+		var (
+			v   any
+			err error
+		)
+		if pi := guard(func() { v, err = derive() }); pi != nil || err != nil {
+			// the leading bytes are not free after all (an offset, a bounded field): no such value exists
+			r.Count("prefix_not_realisable", 1)
+			continue
+		}
+		realised++
+		cs := &caseState{
+			c: c, rg: rg, vr: vr, seed: seed, rng: c.Rng, val: v, twin: derive,
+			derivedBy: fmt.Sprintf("generated value whose SSZ encoding was made to start with %q by choosing the leading field", pfx),
+		}
+		if out := os.Getenv("VERIF_OUT"); out != "" {
+			cs.inflight = filepath.Join(out, fmt.Sprintf("c14-inflight-%d.bin", c.Idx))
+		}
+		enc, ok := cs.roundTrips(g)
+		r.Count("prefix_values", 1)
+		r.Seen("prefix_patterns_realised", fmt.Sprintf("%s %q", vr.K.Name, pfx))
+		if !ok || !bytes.Equal(enc.SSZ, patched) {
+			continue
+		}
+		if vr.K.Duty != 0 {
+			// as real wire messages in the native context: SSZ wire form and legacy JSON wire form
+			cs.wire = rg.newWire()
+			cs.process(input{Class: "valid", Path: "ssz", Data: enc.SSZ}, vr.K.Signed, vr.K.Duty, true)
+			cs.process(input{Class: "valid", Path: "json", Data: enc.JSON}, vr.K.Signed, vr.K.Duty, true)
+			// JSON preceded by white space is still JSON for every JSON decoder; recorded, not judged
+			// (no encoder of the workflow produces it)
+			ws := append([]byte(" \n\t"), enc.JSON...)
+			var o *outcome
+			if vr.K.Signed {
+				o = rg.runSigned(vr.K.Duty, 101, ws, nil, false)
+			} else {
+				o = rg.runUnsigned(vr.K.Duty, 101, ws)
+			}
+			r.Count("json_with_leading_whitespace", 1)
+			if !o.Decoded {
+				r.Seen("json_with_leading_whitespace_rejected", vr.K.Name+": "+o.RejectedBy)
+			}
+			if cs.cons != nil {
+				cs.cons.close()
+			}
+		}
+		if cs.inflight != "" {
+			_ = os.Remove(cs.inflight)
+		}
+	}
+	if realised > 0 {
+		c.NonTrivial(kit.Hash("prefix", vr.String(), sha256.Sum256(baseSSZ)))
 	}
 }
 
